@@ -731,3 +731,173 @@ func (f *FS) Lookup(path string) *Inode {
 	}
 	return n
 }
+
+// ---------------------------------------------------------------------------
+// The rest of the os surface a change to local.go / durable might reach for,
+// built from the primitives above (each primitive is a scheduling and fault
+// point of its own, as the real functions are sequences of system calls).
+
+const (
+	O_APPEND = os.O_APPEND
+	O_SYNC   = os.O_SYNC
+
+	ModePerm = fs.ModePerm
+	ModeDir  = fs.ModeDir
+)
+
+var (
+	ErrNotExist = fs.ErrNotExist
+	ErrExist    = fs.ErrExist
+	ErrInvalid  = fs.ErrInvalid
+	ErrClosed   = fs.ErrClosed
+)
+
+type DirEntry = fs.DirEntry
+
+func Lstat(name string) (FileInfo, error) { return Stat(name) } // no symbolic links in this file system
+
+func Create(name string) (*File, error) { return OpenFile(name, O_RDWR|O_CREATE|O_TRUNC, 0o666) }
+
+// MkdirAll is os.MkdirAll: one mkdir per missing level, nothing synced.
+func MkdirAll(path string, perm FileMode) error {
+	path = filepath.Clean(path)
+	if fi, err := Stat(path); err == nil {
+		if fi.IsDir() {
+			return nil
+		}
+		return &PathError{Op: "mkdir", Path: path, Err: syscall.ENOTDIR}
+	}
+	if parent := filepath.Dir(path); parent != path {
+		if err := MkdirAll(parent, perm); err != nil {
+			return err
+		}
+	}
+	err := Mkdir(path, perm)
+	if err != nil && IsExist(err) {
+		if fi, serr := Stat(path); serr == nil && fi.IsDir() {
+			return nil
+		}
+	}
+	return err
+}
+
+// WriteFile is os.WriteFile: open with O_CREATE|O_TRUNC, write, close; no sync.
+func WriteFile(name string, data []byte, perm FileMode) error {
+	f, err := OpenFile(name, O_WRONLY|O_CREATE|O_TRUNC, perm)
+	if err != nil {
+		return err
+	}
+	_, err = f.Write(data)
+	if cerr := f.Close(); cerr != nil && err == nil {
+		err = cerr
+	}
+	return err
+}
+
+func RemoveAll(path string) error {
+	fi, err := Stat(path)
+	if err != nil {
+		if IsNotExist(err) {
+			return nil
+		}
+		return err
+	}
+	if fi.IsDir() {
+		ents, err := ReadDir(path)
+		if err != nil {
+			return err
+		}
+		for _, e := range ents {
+			if err := RemoveAll(filepath.Join(path, e.Name())); err != nil {
+				return err
+			}
+		}
+	}
+	return Remove(path)
+}
+
+type dirEntry struct{ fileInfo }
+
+func (d dirEntry) Type() fs.FileMode          { return d.Mode().Type() }
+func (d dirEntry) Info() (fs.FileInfo, error) { return d.fileInfo, nil }
+
+func ReadDir(name string) ([]DirEntry, error) {
+	f := Current
+	if ft := f.call("readdir", name); ft != "" {
+		return nil, &PathError{Op: "readdir", Path: name, Err: faultErr(ft)}
+	}
+	f.mu.Lock()
+	defer f.mu.Unlock()
+	n, err := f.lookup(name)
+	if err != nil {
+		return nil, &PathError{Op: "readdir", Path: name, Err: err}
+	}
+	if !n.Dir {
+		return nil, &PathError{Op: "readdir", Path: name, Err: syscall.ENOTDIR}
+	}
+	var names []string
+	for k := range n.ents {
+		names = append(names, k)
+	}
+	sort.Strings(names)
+	var out []DirEntry
+	for _, k := range names {
+		out = append(out, dirEntry{fileInfo{k, n.ents[k]}})
+	}
+	return out, nil
+}
+
+// Chmod by path: volatile until the file is synced, like File.Chmod.
+func Chmod(name string, mode FileMode) error {
+	fl, err := Open(name)
+	if err != nil {
+		return err
+	}
+	defer fl.Close()
+	return fl.Chmod(mode)
+}
+
+func (fl *File) Stat() (FileInfo, error) {
+	fl.fs.mu.Lock()
+	defer fl.fs.mu.Unlock()
+	if fl.closed {
+		return nil, &PathError{Op: "stat", Path: fl.name, Err: fs.ErrClosed}
+	}
+	return fileInfo{filepath.Base(fl.name), fl.n}, nil
+}
+
+func (fl *File) WriteString(s string) (int, error) { return fl.Write([]byte(s)) }
+
+// ReadFrom makes io.Copy(file, src) go through Write.
+func (fl *File) ReadFrom(r io.Reader) (int64, error) {
+	buf := make([]byte, 32*1024)
+	var total int64
+	for {
+		n, err := r.Read(buf)
+		if n > 0 {
+			m, werr := fl.Write(buf[:n])
+			total += int64(m)
+			if werr != nil {
+				return total, werr
+			}
+		}
+		if err == io.EOF {
+			return total, nil
+		}
+		if err != nil {
+			return total, err
+		}
+	}
+}
+
+func (fl *File) Readdirnames(n int) ([]string, error) {
+	ents, err := ReadDir(fl.name)
+	if err != nil {
+		return nil, err
+	}
+	var out []string
+	for _, e := range ents {
+		out = append(out, e.Name())
+	}
+	return out, nil
+}
